@@ -501,8 +501,20 @@ def run_call(obj, case, call, y, k, tags, mism, viol, BL, judge=True):
     c_start = float(make_loss(case, y, call["x"]).cost())
     c_out = float(make_loss(case, y, out).cost())
     tags.append("moved" if out != [float(v) for v in call["x"]] else "stayed")
+    out_undefined = False
+    if math.isnan(c_out) and not math.isnan(c_start):
+        # the count / positive-support losses are undefined (nan) where the model's own prediction is <= 0: lsoda undershoots
+        # a compartment that has decayed to ~1e-13 to -1e-13.  Such a point is outside the domain of the loss kernels
+        # (C14: yhat > 0); the optimiser contract (finite objective) does not cover it and nothing is judged there.
+        try:
+            pred = np.asarray(make_loss(case, y, out)._getSolution(), float)
+            out_undefined = bool(np.nanmin(pred) <= 0.0)
+        except Exception:
+            out_undefined = False
     if math.isnan(c_start):
         tags.append("start-cost-nan")
+    elif out_undefined:
+        tags.append("result-cost-nan:prediction-not-positive:not-judged")
     elif not (c_out <= c_start + 1e-9 * abs(c_start)):
         viol.append({"what": "fit returned a point with a larger cost than its start", "signature": "fit:worse-than-start:" + where,
                      "detail": "cost(start)=%r cost(result)=%r start=%s result=%s lb=%s ub=%s forms=%s bounds given to the optimiser %s message=%s" % (
